@@ -22,7 +22,7 @@ Local Open Scope N_scope.
 
 (* ------------------------------------------------------------------ mini-ISA *)
 
-Inductive reg := RAX | RBX | RCX | RDX | RSI | RDI.
+Inductive reg := RAX | RBX | RCX | RDX | RSI | RDI | RBP | R8 | R9 | R10 | R11 | R12 | R13 | R14 | R15.
 Inductive cond := CE | CNE.
 
 Inductive insn :=
@@ -32,9 +32,20 @@ Inductive insn :=
   | MovRR32 (d s : reg)                             (* mov r32,r32 (zero-extends) *)
   | MovRI (d : reg) (i : N)                         (* mov r32,imm32 *)
   | XorSelf (r : reg)                               (* xor r32,r32 (same register) *)
+  | NotR (r : reg)                                  (* not r32 *)
   | AndRI (d : reg) (i : N)                         (* and r32,imm *)
+  | OrRI (d : reg) (i : N)                          (* or r32,imm *)
+  | XorRI (d : reg) (i : N)                         (* xor r32,imm *)
   | TestRI (d : reg) (i : N)                        (* test r32,imm *)
   | CmpRI (d : reg) (i : N)                         (* cmp r32,imm *)
+  | AndRR (d s : reg)                               (* and r32,r32 *)
+  | OrRR (d s : reg)                                (* or r32,r32 *)
+  | XorRR (d s : reg)                               (* xor r32,r32 (different registers) *)
+  | TestRR (d s : reg)                              (* test r32,r32 *)
+  | AndRI8 (d : reg) (i : N)                        (* and r8,imm8 on the low byte (al, bl, cl, dl, sil, dil, ...) *)
+  | TestRI8 (d : reg) (i : N)                       (* test r8,imm8 *)
+  | CmpRI8 (d : reg) (i : N)                        (* cmp r8,imm8 *)
+  | TestRR8 (d s : reg)                             (* test r8,r8 *)
   | Jcc (c : cond) (tgt : nat)                      (* je/jne, target = instruction index *)
   | Jmp (tgt : nat)
   | Cmov (c : cond) (d s : reg)                     (* cmove/cmovne r64,r64 *)
@@ -98,36 +109,41 @@ Definition OSXSAVE_BIT : N := 0x8000000.
 
 (* ------------------------------------------------------------------ register file *)
 
-Record rf (A : Type) := { r_ax : A; r_bx : A; r_cx : A; r_dx : A; r_si : A; r_di : A }.
-Arguments r_ax {A}. Arguments r_bx {A}. Arguments r_cx {A}.
-Arguments r_dx {A}. Arguments r_si {A}. Arguments r_di {A}.
+Record rf (A : Type) := { r_rax : A; r_rbx : A; r_rcx : A; r_rdx : A; r_rsi : A; r_rdi : A; r_rbp : A; r_r8 : A; r_r9 : A; r_r10 : A; r_r11 : A; r_r12 : A; r_r13 : A; r_r14 : A; r_r15 : A }.
+Arguments r_rax {A}. Arguments r_rbx {A}. Arguments r_rcx {A}. Arguments r_rdx {A}. Arguments r_rsi {A}. Arguments r_rdi {A}. Arguments r_rbp {A}. Arguments r_r8 {A}. Arguments r_r9 {A}. Arguments r_r10 {A}. Arguments r_r11 {A}. Arguments r_r12 {A}. Arguments r_r13 {A}. Arguments r_r14 {A}. Arguments r_r15 {A}.
 
 Definition rget {A} (r : reg) (s : rf A) : A :=
-  match r with RAX => r_ax s | RBX => r_bx s | RCX => r_cx s | RDX => r_dx s | RSI => r_si s | RDI => r_di s end.
+  match r with RAX => r_rax s | RBX => r_rbx s | RCX => r_rcx s | RDX => r_rdx s | RSI => r_rsi s | RDI => r_rdi s | RBP => r_rbp s | R8 => r_r8 s | R9 => r_r9 s | R10 => r_r10 s | R11 => r_r11 s | R12 => r_r12 s | R13 => r_r13 s | R14 => r_r14 s | R15 => r_r15 s end.
 Definition rset {A} (r : reg) (v : A) (s : rf A) : rf A :=
   match r with
-  | RAX => {| r_ax := v; r_bx := r_bx s; r_cx := r_cx s; r_dx := r_dx s; r_si := r_si s; r_di := r_di s |}
-  | RBX => {| r_ax := r_ax s; r_bx := v; r_cx := r_cx s; r_dx := r_dx s; r_si := r_si s; r_di := r_di s |}
-  | RCX => {| r_ax := r_ax s; r_bx := r_bx s; r_cx := v; r_dx := r_dx s; r_si := r_si s; r_di := r_di s |}
-  | RDX => {| r_ax := r_ax s; r_bx := r_bx s; r_cx := r_cx s; r_dx := v; r_si := r_si s; r_di := r_di s |}
-  | RSI => {| r_ax := r_ax s; r_bx := r_bx s; r_cx := r_cx s; r_dx := r_dx s; r_si := v; r_di := r_di s |}
-  | RDI => {| r_ax := r_ax s; r_bx := r_bx s; r_cx := r_cx s; r_dx := r_dx s; r_si := r_si s; r_di := v |}
+  | RAX => {| r_rax := v; r_rbx := r_rbx s; r_rcx := r_rcx s; r_rdx := r_rdx s; r_rsi := r_rsi s; r_rdi := r_rdi s; r_rbp := r_rbp s; r_r8 := r_r8 s; r_r9 := r_r9 s; r_r10 := r_r10 s; r_r11 := r_r11 s; r_r12 := r_r12 s; r_r13 := r_r13 s; r_r14 := r_r14 s; r_r15 := r_r15 s |}
+  | RBX => {| r_rax := r_rax s; r_rbx := v; r_rcx := r_rcx s; r_rdx := r_rdx s; r_rsi := r_rsi s; r_rdi := r_rdi s; r_rbp := r_rbp s; r_r8 := r_r8 s; r_r9 := r_r9 s; r_r10 := r_r10 s; r_r11 := r_r11 s; r_r12 := r_r12 s; r_r13 := r_r13 s; r_r14 := r_r14 s; r_r15 := r_r15 s |}
+  | RCX => {| r_rax := r_rax s; r_rbx := r_rbx s; r_rcx := v; r_rdx := r_rdx s; r_rsi := r_rsi s; r_rdi := r_rdi s; r_rbp := r_rbp s; r_r8 := r_r8 s; r_r9 := r_r9 s; r_r10 := r_r10 s; r_r11 := r_r11 s; r_r12 := r_r12 s; r_r13 := r_r13 s; r_r14 := r_r14 s; r_r15 := r_r15 s |}
+  | RDX => {| r_rax := r_rax s; r_rbx := r_rbx s; r_rcx := r_rcx s; r_rdx := v; r_rsi := r_rsi s; r_rdi := r_rdi s; r_rbp := r_rbp s; r_r8 := r_r8 s; r_r9 := r_r9 s; r_r10 := r_r10 s; r_r11 := r_r11 s; r_r12 := r_r12 s; r_r13 := r_r13 s; r_r14 := r_r14 s; r_r15 := r_r15 s |}
+  | RSI => {| r_rax := r_rax s; r_rbx := r_rbx s; r_rcx := r_rcx s; r_rdx := r_rdx s; r_rsi := v; r_rdi := r_rdi s; r_rbp := r_rbp s; r_r8 := r_r8 s; r_r9 := r_r9 s; r_r10 := r_r10 s; r_r11 := r_r11 s; r_r12 := r_r12 s; r_r13 := r_r13 s; r_r14 := r_r14 s; r_r15 := r_r15 s |}
+  | RDI => {| r_rax := r_rax s; r_rbx := r_rbx s; r_rcx := r_rcx s; r_rdx := r_rdx s; r_rsi := r_rsi s; r_rdi := v; r_rbp := r_rbp s; r_r8 := r_r8 s; r_r9 := r_r9 s; r_r10 := r_r10 s; r_r11 := r_r11 s; r_r12 := r_r12 s; r_r13 := r_r13 s; r_r14 := r_r14 s; r_r15 := r_r15 s |}
+  | RBP => {| r_rax := r_rax s; r_rbx := r_rbx s; r_rcx := r_rcx s; r_rdx := r_rdx s; r_rsi := r_rsi s; r_rdi := r_rdi s; r_rbp := v; r_r8 := r_r8 s; r_r9 := r_r9 s; r_r10 := r_r10 s; r_r11 := r_r11 s; r_r12 := r_r12 s; r_r13 := r_r13 s; r_r14 := r_r14 s; r_r15 := r_r15 s |}
+  | R8 => {| r_rax := r_rax s; r_rbx := r_rbx s; r_rcx := r_rcx s; r_rdx := r_rdx s; r_rsi := r_rsi s; r_rdi := r_rdi s; r_rbp := r_rbp s; r_r8 := v; r_r9 := r_r9 s; r_r10 := r_r10 s; r_r11 := r_r11 s; r_r12 := r_r12 s; r_r13 := r_r13 s; r_r14 := r_r14 s; r_r15 := r_r15 s |}
+  | R9 => {| r_rax := r_rax s; r_rbx := r_rbx s; r_rcx := r_rcx s; r_rdx := r_rdx s; r_rsi := r_rsi s; r_rdi := r_rdi s; r_rbp := r_rbp s; r_r8 := r_r8 s; r_r9 := v; r_r10 := r_r10 s; r_r11 := r_r11 s; r_r12 := r_r12 s; r_r13 := r_r13 s; r_r14 := r_r14 s; r_r15 := r_r15 s |}
+  | R10 => {| r_rax := r_rax s; r_rbx := r_rbx s; r_rcx := r_rcx s; r_rdx := r_rdx s; r_rsi := r_rsi s; r_rdi := r_rdi s; r_rbp := r_rbp s; r_r8 := r_r8 s; r_r9 := r_r9 s; r_r10 := v; r_r11 := r_r11 s; r_r12 := r_r12 s; r_r13 := r_r13 s; r_r14 := r_r14 s; r_r15 := r_r15 s |}
+  | R11 => {| r_rax := r_rax s; r_rbx := r_rbx s; r_rcx := r_rcx s; r_rdx := r_rdx s; r_rsi := r_rsi s; r_rdi := r_rdi s; r_rbp := r_rbp s; r_r8 := r_r8 s; r_r9 := r_r9 s; r_r10 := r_r10 s; r_r11 := v; r_r12 := r_r12 s; r_r13 := r_r13 s; r_r14 := r_r14 s; r_r15 := r_r15 s |}
+  | R12 => {| r_rax := r_rax s; r_rbx := r_rbx s; r_rcx := r_rcx s; r_rdx := r_rdx s; r_rsi := r_rsi s; r_rdi := r_rdi s; r_rbp := r_rbp s; r_r8 := r_r8 s; r_r9 := r_r9 s; r_r10 := r_r10 s; r_r11 := r_r11 s; r_r12 := v; r_r13 := r_r13 s; r_r14 := r_r14 s; r_r15 := r_r15 s |}
+  | R13 => {| r_rax := r_rax s; r_rbx := r_rbx s; r_rcx := r_rcx s; r_rdx := r_rdx s; r_rsi := r_rsi s; r_rdi := r_rdi s; r_rbp := r_rbp s; r_r8 := r_r8 s; r_r9 := r_r9 s; r_r10 := r_r10 s; r_r11 := r_r11 s; r_r12 := r_r12 s; r_r13 := v; r_r14 := r_r14 s; r_r15 := r_r15 s |}
+  | R14 => {| r_rax := r_rax s; r_rbx := r_rbx s; r_rcx := r_rcx s; r_rdx := r_rdx s; r_rsi := r_rsi s; r_rdi := r_rdi s; r_rbp := r_rbp s; r_r8 := r_r8 s; r_r9 := r_r9 s; r_r10 := r_r10 s; r_r11 := r_r11 s; r_r12 := r_r12 s; r_r13 := r_r13 s; r_r14 := v; r_r15 := r_r15 s |}
+  | R15 => {| r_rax := r_rax s; r_rbx := r_rbx s; r_rcx := r_rcx s; r_rdx := r_rdx s; r_rsi := r_rsi s; r_rdi := r_rdi s; r_rbp := r_rbp s; r_r8 := r_r8 s; r_r9 := r_r9 s; r_r10 := r_r10 s; r_r11 := r_r11 s; r_r12 := r_r12 s; r_r13 := r_r13 s; r_r14 := r_r14 s; r_r15 := v |}
   end.
 Definition rmap {A B} (f : A -> B) (s : rf A) : rf B :=
-  {| r_ax := f (r_ax s); r_bx := f (r_bx s); r_cx := f (r_cx s); r_dx := f (r_dx s); r_si := f (r_si s); r_di := f (r_di s) |}.
-Definition rconst {A} (v : A) : rf A := {| r_ax := v; r_bx := v; r_cx := v; r_dx := v; r_si := v; r_di := v |}.
-
-Definition reg_eqb (a b : reg) : bool :=
-  match a, b with
-  | RAX, RAX | RBX, RBX | RCX, RCX | RDX, RDX | RSI, RSI | RDI, RDI => true
-  | _, _ => false
-  end.
+  {| r_rax := f (r_rax s); r_rbx := f (r_rbx s); r_rcx := f (r_rcx s); r_rdx := f (r_rdx s); r_rsi := f (r_rsi s); r_rdi := f (r_rdi s); r_rbp := f (r_rbp s); r_r8 := f (r_r8 s); r_r9 := f (r_r9 s); r_r10 := f (r_r10 s); r_r11 := f (r_r11 s); r_r12 := f (r_r12 s); r_r13 := f (r_r13 s); r_r14 := f (r_r14 s); r_r15 := f (r_r15 s) |}.
+Definition rconst {A} (v : A) : rf A := {| r_rax := v; r_rbx := v; r_rcx := v; r_rdx := v; r_rsi := v; r_rdi := v; r_rbp := v; r_r8 := v; r_r9 := v; r_r10 := v; r_r11 := v; r_r12 := v; r_r13 := v; r_r14 := v; r_r15 := v |}.
 
 Inductive next := Fall | Goto (t : nat) | Stop.
 
 Definition holds (c : cond) (zf : bool) : bool := match c with CE => zf | CNE => negb zf end.
 
 Definition slot_of (self : string) : string := String.append self "_dispatched".
+
+Definition BYTE : N := 0xFF.
+Definition HI24 : N := 0xFFFFFF00.
 
 (* ------------------------------------------------------------------ concrete interpreter *)
 
@@ -150,6 +166,19 @@ Definition c_leaf (e : env) (a b c d : field) (s : cst) : cst :=
   c_setr RDX (VNum (fieldv e d)) (c_setr RCX (VNum (fieldv e c))
     (c_setr RBX (VNum (fieldv e b)) (c_setr RAX (VNum (fieldv e a)) s))).
 
+(* r := f r, ZF := (g r = 0) — a one-operand arithmetic instruction on a number *)
+Definition c_arith1 (d : reg) (f g : N -> N) (s : cst) : option (cst * next) :=
+  match rget d (c_r s) with
+  | VNum n => Some (c_setzf (g n =? 0) (c_setr d (VNum (f n)) s), Fall)
+  | _ => None
+  end.
+(* d := f d s, ZF := (g d s = 0) — a two-operand arithmetic instruction on numbers *)
+Definition c_arith2 (d r : reg) (f g : N -> N -> N) (s : cst) : option (cst * next) :=
+  match rget d (c_r s), rget r (c_r s) with
+  | VNum a, VNum b => Some (c_setzf (g a b =? 0) (c_setr d (VNum (f a b)) s), Fall)
+  | _, _ => None
+  end.
+
 Definition cstep (self : string) (e : env) (i : insn) (s : cst) : option (cst * next) :=
   match i with
   | Push r => Some (c_setstk (rget r (c_r s) :: c_stk s) s, Fall)
@@ -162,18 +191,23 @@ Definition cstep (self : string) (e : env) (i : insn) (s : cst) : option (cst * 
   | MovRR32 d r => Some (c_setr d (match rget r (c_r s) with VNum n => VNum n | _ => VJunk end) s, Fall)
   | MovRI d i => Some (c_setr d (VNum (m32 i)) s, Fall)
   | XorSelf r => Some (c_setzf true (c_setr r (VNum 0) s), Fall)
-  | AndRI d i => match rget d (c_r s) with
-                 | VNum n => Some (c_setzf (N.land n i =? 0) (c_setr d (VNum (N.land n i)) s), Fall)
-                 | _ => None
-                 end
-  | TestRI d i => match rget d (c_r s) with
-                  | VNum n => Some (c_setzf (N.land n i =? 0) s, Fall)
-                  | _ => None
-                  end
-  | CmpRI d i => match rget d (c_r s) with
-                 | VNum n => Some (c_setzf (n =? i) s, Fall)
-                 | _ => None
-                 end
+  | NotR d => match rget d (c_r s) with           (* NOT does not touch the flags *)
+              | VNum n => Some (c_setr d (VNum (N.lxor n ones32)) s, Fall)
+              | _ => None
+              end
+  | AndRI d i => c_arith1 d (fun n => N.land n i) (fun n => N.land n i) s
+  | OrRI d i => c_arith1 d (fun n => N.lor n i) (fun n => N.lor n i) s
+  | XorRI d i => c_arith1 d (fun n => N.lxor n i) (fun n => N.lxor n i) s
+  | TestRI d i => c_arith1 d (fun n => n) (fun n => N.land n i) s
+  | CmpRI d i => c_arith1 d (fun n => n) (fun n => N.lxor n i) s
+  | AndRR d r => c_arith2 d r N.land N.land s
+  | OrRR d r => c_arith2 d r N.lor N.lor s
+  | XorRR d r => c_arith2 d r N.lxor N.lxor s
+  | TestRR d r => c_arith2 d r (fun a _ => a) N.land s
+  | AndRI8 d i => c_arith1 d (fun n => N.land n (N.lor (N.land i BYTE) HI24)) (fun n => N.land n (N.land i BYTE)) s
+  | TestRI8 d i => c_arith1 d (fun n => n) (fun n => N.land n (N.land i BYTE)) s
+  | CmpRI8 d i => c_arith1 d (fun n => n) (fun n => N.lxor (N.land n BYTE) i) s
+  | TestRR8 d r => c_arith2 d r (fun a _ => a) (fun a b => N.land (N.land a b) BYTE) s
   | Jcc c t => match c_zf s with
                | Some z => Some (s, if holds c z then Goto t else Fall)
                | None => None
@@ -185,10 +219,10 @@ Definition cstep (self : string) (e : env) (i : insn) (s : cst) : option (cst * 
                   end
   | Cpuid => match rget RAX (c_r s) with
              | VNum a =>
-                 if a =? 1 then Some (c_leaf e L1A L1B L1C L1D s, Fall)
-                 else if a =? 7 then
+                 if N.lxor a 1 =? 0 then Some (c_leaf e L1A L1B L1C L1D s, Fall)
+                 else if N.lxor a 7 =? 0 then
                    match rget RCX (c_r s) with
-                   | VNum c => if c =? 0 then Some (c_leaf e L7A L7B L7C L7D s, Fall) else None
+                   | VNum c => if N.lxor c 0 =? 0 then Some (c_leaf e L7A L7B L7C L7D s, Fall) else None
                    | _ => None
                    end
                  else None
@@ -196,8 +230,8 @@ Definition cstep (self : string) (e : env) (i : insn) (s : cst) : option (cst * 
              end
   | Xgetbv => match rget RCX (c_r s) with
               | VNum c =>
-                  if c =? 0 then
-                    if N.land (fieldv e L1C) OSXSAVE_BIT =? OSXSAVE_BIT
+                  if N.lxor c 0 =? 0 then
+                    if N.lxor (N.land (fieldv e L1C) OSXSAVE_BIT) OSXSAVE_BIT =? 0
                     then Some (c_setr RDX (VNum (fieldv e X0H)) (c_setr RAX (VNum (fieldv e X0L)) s), Fall)
                     else None
                   else None
@@ -244,17 +278,48 @@ Definition exec (self : string) (p : list insn) (e : env) : option string :=
 
 (* ------------------------------------------------------------------ symbolic executor *)
 
-Inductive sval := SNum (n : N) | SSym (x : string) | SFld (f : field) (m : N) | SJunk.
-Inductive sflag := FNone | FConst (b : bool) | FAtom (f : field) (m v : N).  (* ZF = ((f & m) = v) *)
+(* numbers as bitwise expressions over the environment's fields *)
+Inductive expr :=
+  | EConst (n : N) | EFld (f : field)
+  | EAnd (a b : expr) | EOr (a b : expr) | EXor (a b : expr).
+
+Fixpoint ev (e : env) (x : expr) : N :=
+  match x with
+  | EConst n => n
+  | EFld f => fieldv e f
+  | EAnd a b => N.land (ev e a) (ev e b)
+  | EOr a b => N.lor (ev e a) (ev e b)
+  | EXor a b => N.lxor (ev e a) (ev e b)
+  end.
+
+(* value of an expression that mentions no field *)
+Fixpoint cfold (x : expr) : option N :=
+  match x with
+  | EConst n => Some n
+  | EFld _ => None
+  | EAnd a b => match cfold a, cfold b with Some p, Some q => Some (N.land p q) | _, _ => None end
+  | EOr a b => match cfold a, cfold b with Some p, Some q => Some (N.lor p q) | _, _ => None end
+  | EXor a b => match cfold a, cfold b with Some p, Some q => Some (N.lxor p q) | _, _ => None end
+  end.
+
+Inductive sval := SExp (x : expr) | SSym (x : string) | SJunk.
+Inductive sflag := FNone | FZero (x : expr).        (* ZF = (x = 0) *)
 
 Inductive dtree :=
   | Leaf (r : option string)
-  | Node (f : field) (m v : N) (tt ff : dtree).      (* if (f & m) = v then tt else ff *)
+  | Node (c : expr) (tt ff : dtree).                 (* if c = 0 then tt else ff *)
 
 Fixpoint eval (t : dtree) (e : env) : option string :=
   match t with
   | Leaf r => r
-  | Node f m v a b => if N.land (fieldv e f) m =? v then eval a e else eval b e
+  | Node c a b => if ev e c =? 0 then eval a e else eval b e
+  end.
+
+(* a test whose outcome does not depend on the environment is decided on the spot *)
+Definition mkNode (c : expr) (a b : dtree) : dtree :=
+  match cfold c with
+  | Some n => if n =? 0 then a else b
+  | None => Node c a b
   end.
 
 Record sst := { s_r : rf sval; s_zf : sflag; s_stk : list sval; s_out : option string }.
@@ -262,30 +327,39 @@ Definition sinit : sst := {| s_r := rconst SJunk; s_zf := FNone; s_stk := []; s_
 
 Definition s_setr (r : reg) (v : sval) (s : sst) : sst :=
   {| s_r := rset r v (s_r s); s_zf := s_zf s; s_stk := s_stk s; s_out := s_out s |}.
-Definition s_setzf (z : sflag) (s : sst) : sst :=
-  {| s_r := s_r s; s_zf := z; s_stk := s_stk s; s_out := s_out s |}.
+Definition s_setzf (z : expr) (s : sst) : sst :=
+  {| s_r := s_r s; s_zf := FZero z; s_stk := s_stk s; s_out := s_out s |}.
 Definition s_setstk (k : list sval) (s : sst) : sst :=
   {| s_r := s_r s; s_zf := s_zf s; s_stk := k; s_out := s_out s |}.
 Definition s_setout (x : string) (s : sst) : sst :=
   {| s_r := s_r s; s_zf := s_zf s; s_stk := s_stk s; s_out := Some x |}.
 
 Definition s_leaf (a b c d : field) (s : sst) : sst :=
-  s_setr RDX (SFld d ones32) (s_setr RCX (SFld c ones32)
-    (s_setr RBX (SFld b ones32) (s_setr RAX (SFld a ones32) s))).
+  s_setr RDX (SExp (EFld d)) (s_setr RCX (SExp (EFld c))
+    (s_setr RBX (SExp (EFld b)) (s_setr RAX (SExp (EFld a)) s))).
 
 Definition on_flag (fl : sflag) (k : bool -> dtree) : dtree :=
   match fl with
   | FNone => Leaf None
-  | FConst b => k b
-  | FAtom f m v => Node f m v (k true) (k false)
+  | FZero x => mkNode x (k true) (k false)
   end.
 
 (* branch on "register value = n" *)
 Definition on_num (v : sval) (n : N) (yes no : dtree) : dtree :=
   match v with
-  | SNum x => if x =? n then yes else no
-  | SFld f m => Node f m n yes no
+  | SExp x => mkNode (EXor x (EConst n)) yes no
   | _ => Leaf None
+  end.
+
+Definition s_arith1 (d : reg) (f g : expr -> expr) (s : sst) (k : sst -> next -> dtree) : dtree :=
+  match rget d (s_r s) with
+  | SExp x => k (s_setzf (g x) (s_setr d (SExp (f x)) s)) Fall
+  | _ => Leaf None
+  end.
+Definition s_arith2 (d r : reg) (f g : expr -> expr -> expr) (s : sst) (k : sst -> next -> dtree) : dtree :=
+  match rget d (s_r s), rget r (s_r s) with
+  | SExp a, SExp b => k (s_setzf (g a b) (s_setr d (SExp (f a b)) s)) Fall
+  | _, _ => Leaf None
   end.
 
 Definition sstep (self : string) (i : insn) (s : sst) (k : sst -> next -> dtree) : dtree :=
@@ -297,25 +371,27 @@ Definition sstep (self : string) (i : insn) (s : sst) (k : sst -> next -> dtree)
              end
   | LeaSym r x => k (s_setr r (SSym x) s) Fall
   | MovRR64 d r => k (s_setr d (rget r (s_r s)) s) Fall
-  | MovRR32 d r => k (s_setr d (match rget r (s_r s) with
-                                | SNum n => SNum n | SFld f m => SFld f m | _ => SJunk end) s) Fall
-  | MovRI d i => k (s_setr d (SNum (m32 i)) s) Fall
-  | XorSelf r => k (s_setzf (FConst true) (s_setr r (SNum 0) s)) Fall
-  | AndRI d i => match rget d (s_r s) with
-                 | SNum n => k (s_setzf (FConst (N.land n i =? 0)) (s_setr d (SNum (N.land n i)) s)) Fall
-                 | SFld f m => k (s_setzf (FAtom f (N.land m i) 0) (s_setr d (SFld f (N.land m i)) s)) Fall
-                 | _ => Leaf None
-                 end
-  | TestRI d i => match rget d (s_r s) with
-                  | SNum n => k (s_setzf (FConst (N.land n i =? 0)) s) Fall
-                  | SFld f m => k (s_setzf (FAtom f (N.land m i) 0) s) Fall
-                  | _ => Leaf None
-                  end
-  | CmpRI d i => match rget d (s_r s) with
-                 | SNum n => k (s_setzf (FConst (n =? i)) s) Fall
-                 | SFld f m => k (s_setzf (FAtom f m i) s) Fall
-                 | _ => Leaf None
-                 end
+  | MovRR32 d r => k (s_setr d (match rget r (s_r s) with SExp x => SExp x | _ => SJunk end) s) Fall
+  | MovRI d i => k (s_setr d (SExp (EConst (m32 i))) s) Fall
+  | XorSelf r => k (s_setzf (EConst 0) (s_setr r (SExp (EConst 0)) s)) Fall
+  | NotR d => match rget d (s_r s) with
+              | SExp x => k (s_setr d (SExp (EXor x (EConst ones32))) s) Fall
+              | _ => Leaf None
+              end
+  | AndRI d i => s_arith1 d (fun x => EAnd x (EConst i)) (fun x => EAnd x (EConst i)) s k
+  | OrRI d i => s_arith1 d (fun x => EOr x (EConst i)) (fun x => EOr x (EConst i)) s k
+  | XorRI d i => s_arith1 d (fun x => EXor x (EConst i)) (fun x => EXor x (EConst i)) s k
+  | TestRI d i => s_arith1 d (fun x => x) (fun x => EAnd x (EConst i)) s k
+  | CmpRI d i => s_arith1 d (fun x => x) (fun x => EXor x (EConst i)) s k
+  | AndRR d r => s_arith2 d r EAnd EAnd s k
+  | OrRR d r => s_arith2 d r EOr EOr s k
+  | XorRR d r => s_arith2 d r EXor EXor s k
+  | TestRR d r => s_arith2 d r (fun a _ => a) EAnd s k
+  | AndRI8 d i => s_arith1 d (fun x => EAnd x (EConst (N.lor (N.land i BYTE) HI24)))
+                             (fun x => EAnd x (EConst (N.land i BYTE))) s k
+  | TestRI8 d i => s_arith1 d (fun x => x) (fun x => EAnd x (EConst (N.land i BYTE))) s k
+  | CmpRI8 d i => s_arith1 d (fun x => x) (fun x => EXor (EAnd x (EConst BYTE)) (EConst i)) s k
+  | TestRR8 d r => s_arith2 d r (fun a _ => a) (fun a b => EAnd (EAnd a b) (EConst BYTE)) s k
   | Jcc c t => on_flag (s_zf s) (fun z => k s (if holds c z then Goto t else Fall))
   | Jmp t => k s (Goto t)
   | Cmov c d r => on_flag (s_zf s) (fun z => k (if holds c z then s_setr d (rget r (s_r s)) s else s) Fall)
@@ -324,8 +400,8 @@ Definition sstep (self : string) (i : insn) (s : sst) (k : sst -> next -> dtree)
                (on_num a 7 (on_num (rget RCX (s_r s)) 0 (k (s_leaf L7A L7B L7C L7D s) Fall) (Leaf None))
                   (Leaf None))
   | Xgetbv => on_num (rget RCX (s_r s)) 0
-                (Node L1C OSXSAVE_BIT OSXSAVE_BIT
-                   (k (s_setr RDX (SFld X0H ones32) (s_setr RAX (SFld X0L ones32) s)) Fall)
+                (mkNode (EXor (EAnd (EFld L1C) (EConst OSXSAVE_BIT)) (EConst OSXSAVE_BIT))
+                   (k (s_setr RDX (SExp (EFld X0H)) (s_setr RAX (SExp (EFld X0L)) s)) Fall)
                    (Leaf None))
                 (Leaf None)
   | Store slot r => if String.eqb slot (slot_of self) then
@@ -361,17 +437,55 @@ Definition sexec (self : string) (p : list insn) : dtree := srun self p (fuel_of
    nothing else) *)
 Definition cval (e : env) (v : sval) : val :=
   match v with
-  | SNum n => VNum n | SSym x => VSym x | SJunk => VJunk
-  | SFld f m => VNum (N.land (fieldv e f) m)
+  | SExp x => VNum (ev e x) | SSym x => VSym x | SJunk => VJunk
   end.
 Definition cflag (e : env) (fl : sflag) : option bool :=
   match fl with
-  | FNone => None | FConst b => Some b
-  | FAtom f m v => Some (N.land (fieldv e f) m =? v)
+  | FNone => None
+  | FZero x => Some (ev e x =? 0)
   end.
 Definition conc (e : env) (s : sst) : cst :=
   {| c_r := rmap (cval e) (s_r s); c_zf := cflag e (s_zf s);
      c_stk := map (cval e) (s_stk s); c_out := s_out s |}.
+
+(* Normal form of an expression over at most one field F:  (F & m) xor x.  Every bitwise
+   function of a single field has this form (per bit it is 0, 1, F or not F), so and/or/xor/not
+   of words derived from one CPUID/XCR0 word stay normal; an expression mixing two fields has
+   no normal form and the checker then learns nothing from a test on it (both branches are
+   explored with the facts unchanged: sound, possibly incomplete). *)
+Definition nform := (option field * N * N)%type.
+Definition nf_join (a b : option field) : option (option field) :=
+  match a, b with
+  | None, o | o, None => Some o
+  | Some f, Some g => if field_eqb f g then Some (Some f) else None
+  end.
+Definition nf_op (op : N -> N -> N) (p q : option nform) : option nform :=
+  match p, q with
+  | Some (o1, m1, x1), Some (o2, m2, x2) =>
+      match nf_join o1 o2 with
+      | Some o => let v0 := op x1 x2 in let v1 := op (N.lxor m1 x1) (N.lxor m2 x2) in
+                  Some (o, N.lxor v0 v1, v0)
+      | None => None
+      end
+  | _, _ => None
+  end.
+Fixpoint norm (x : expr) : option nform :=
+  match x with
+  | EConst n => Some (None, 0, n)
+  | EFld f => Some (Some f, ones32, 0)
+  | EAnd a b => nf_op N.land (norm a) (norm b)
+  | EOr a b => nf_op N.lor (norm a) (norm b)
+  | EXor a b => nf_op N.lxor (norm a) (norm b)
+  end.
+
+(* the test "c = 0" as an atom (field & mask) = val, or as a constant *)
+Inductive test_kind := TAtom (f : field) (m v : N) | TConst (b : bool) | TOpaque.
+Definition test_of (c : expr) : test_kind :=
+  match norm c with
+  | Some (Some f, m, x) => TAtom f m x
+  | Some (None, _, x) => TConst (x =? 0)
+  | None => TOpaque
+  end.
 
 (* ------------------------------------------------------------------ features *)
 
@@ -565,11 +679,17 @@ Section Check.
     match t with
     | Leaf None => false
     | Leaf (Some x) => leaf_ok k x
-    | Node f m v a b =>
-        match decide k f m v with
-        | DTrue => check k a
-        | DFalse => check k b
-        | DUnknown => check (assume_true k f m v) a && check (assume_false k f m v) b
+    | Node c a b =>
+        match test_of c with
+        | TConst true => check k a
+        | TConst false => check k b
+        | TOpaque => check k a && check k b
+        | TAtom f m v =>
+            match decide k f m v with
+            | DTrue => check k a
+            | DFalse => check k b
+            | DUnknown => check (assume_true k f m v) a && check (assume_false k f m v) b
+            end
         end
     end.
 
@@ -640,21 +760,33 @@ Definition famo (entry : string) (r : option string) : option (list string) :=
 Fixpoint agree2 (e1 e2 : string) (k : known) (r1 : option string) (t2 : dtree) : bool :=
   match t2 with
   | Leaf r2 => fam_eqb (famo e1 r1) (famo e2 r2)
-  | Node f m v a b =>
-      match decide k f m v with
-      | DTrue => agree2 e1 e2 k r1 a
-      | DFalse => agree2 e1 e2 k r1 b
-      | DUnknown => agree2 e1 e2 (assume_true k f m v) r1 a && agree2 e1 e2 (assume_false k f m v) r1 b
+  | Node c a b =>
+      match test_of c with
+      | TConst true => agree2 e1 e2 k r1 a
+      | TConst false => agree2 e1 e2 k r1 b
+      | TOpaque => agree2 e1 e2 k r1 a && agree2 e1 e2 k r1 b
+      | TAtom f m v =>
+          match decide k f m v with
+          | DTrue => agree2 e1 e2 k r1 a
+          | DFalse => agree2 e1 e2 k r1 b
+          | DUnknown => agree2 e1 e2 (assume_true k f m v) r1 a && agree2 e1 e2 (assume_false k f m v) r1 b
+          end
       end
   end.
 Fixpoint agree (e1 e2 : string) (k : known) (t1 t2 : dtree) : bool :=
   match t1 with
   | Leaf r1 => agree2 e1 e2 k r1 t2
-  | Node f m v a b =>
-      match decide k f m v with
-      | DTrue => agree e1 e2 k a t2
-      | DFalse => agree e1 e2 k b t2
-      | DUnknown => agree e1 e2 (assume_true k f m v) a t2 && agree e1 e2 (assume_false k f m v) b t2
+  | Node c a b =>
+      match test_of c with
+      | TConst true => agree e1 e2 k a t2
+      | TConst false => agree e1 e2 k b t2
+      | TOpaque => agree e1 e2 k a t2 && agree e1 e2 k b t2
+      | TAtom f m v =>
+          match decide k f m v with
+          | DTrue => agree e1 e2 k a t2
+          | DFalse => agree e1 e2 k b t2
+          | DUnknown => agree e1 e2 (assume_true k f m v) a t2 && agree e1 e2 (assume_false k f m v) b t2
+          end
       end
   end.
 
@@ -694,9 +826,15 @@ Definition satom := (bool * field * N * N)%type.
 Fixpoint paths (t : dtree) : list (list satom * option string) :=
   match t with
   | Leaf r => [([], r)]
-  | Node f m v a b =>
-      app (map (fun p => ((true, f, m, v) :: fst p, snd p)) (paths a))
-      (map (fun p => ((false, f, m, v) :: fst p, snd p)) (paths b))
+  | Node c a b =>
+      match test_of c with
+      | TAtom f m v =>
+          app (map (fun p => ((true, f, m, v) :: fst p, snd p)) (paths a))
+              (map (fun p => ((false, f, m, v) :: fst p, snd p)) (paths b))
+      | TConst true => paths a
+      | TConst false => paths b
+      | TOpaque => app (paths a) (paths b)
+      end
   end.
 
 Definition bits32 : list N := map N.of_nat (seq 0 32).
